@@ -28,6 +28,7 @@ func genC14(t *rapid.T) CaseC14 {
 	o.NoCastFloat = rapid.Bool().Draw(t, "nofloat")
 	o.NoCastBool = rapid.Bool().Draw(t, "nobool")
 	o.CastNanInf = rapid.Bool().Draw(t, "naninf")
+	o.ViaToggle = rapid.IntRange(0, 2).Draw(t, "viatoggle") == 0
 	if rapid.Bool().Draw(t, "skip") {
 		for _, k := range []string{"a", "-b", "#text", "item", "-a", "b"} {
 			if rapid.IntRange(0, 2).Draw(t, "skipk") == 0 {
